@@ -249,7 +249,7 @@ package scheduler
 //@   loop 1 invariant [C01,C07] D4-consumer-entries-are-open-subscriptions: $D4
 //@   loop 1 invariant [C01,C07] D5-entries-of-one-consumer-have-distinct-slots: $D5
 //@   loop 1 invariant [C01,C07] D6-every-subscription-has-its-entry: $D6
-//@   loop 1 invariant [C19] W-waiting-counts-jobs-with-open-subscriptions: $WDEF && waiting == card(W)
+//@   loop 1 invariant [C19,C05] W-waiting-counts-jobs-with-open-subscriptions: $WDEF && waiting == card(W)
 //@   loop 1 invariant [C01,C12] dispatched-and-finished-jobs: $DISP
 //@   loop 1 invariant [C08,C01] F1-failed-dependency-invalidates: $F1
 //@   loop 1 invariant [C08] F2-invalid-has-a-failed-dependency: $F2
@@ -258,7 +258,7 @@ package scheduler
 //@   loop 1 invariant [C08] F4-unfinished-jobs-have-no-error: $F4
 //@   loop 1 invariant [C07] N1-event-counters-count-distinct-jobs: $N1
 //@   loop 1 invariant [C08] H1-accumulated-error-has-one-entry-per-failing-result: implies(s.continueOnError, errsLen(s.err) == nfail && nfail == nFailRes)
-//@   loop 1 invariant [C01] B2-ready-list-holds-undispatched-jobs-without-open-subscriptions: $B2
+//@   loop 1 invariant [C01,C05] B2-ready-list-holds-undispatched-jobs-without-open-subscriptions: $B2
 //
 //   select
 //@   at select 1 arm 1 expect send
